@@ -46,18 +46,20 @@ static bool_t derTIsValid(u32 tag)
 	{
 		u32 t;
 		u32 b;
+		size_t pos;
 		// установлен старший бит в последнем (младшем) октете?
 		if (tag & 128)
 			return FALSE;
 		// пробегаем ненулевые октеты вплоть до первого (старшего)
-		for (b = tag & 127, t = b, tag >>= 8; tag > 255; tag >>= 8)
+		for (b = tag & 127, t = b, pos = 7, tag >>= 8; tag > 255;
+			tag >>= 8, pos += 7)
 		{
 			// в промежуточном октете снят старший бит?
 			// будет переполнение при пересчете тега-как-значения?
-			if ((tag & 128) == 0 || (t >> 25) != 0)
+			if ((tag & 128) == 0 || pos > 21)
 				return FALSE;
-			// пересчитать тег-как-значение
-			b = tag & 127, t = t << 7, t |= b;
+			// пересчитать тег-как-значение (старшие группы -- слева)
+			b = tag & 127, t |= b << pos;
 		}
 		// можно кодировать одним октетом? меньшим числом октетов?
 		// в первом (старшем) октете не установлены 5 младших битов?
